@@ -50,6 +50,8 @@ template <class T> bool run_extreme (bool thorough)
     vf::R ().cls ("extreme.t-underflows.exact-hit(one-sided truth check)", total.uhit);
     vf::R ().cls ("extreme.some-t-exceeds-max(overflow guard regime)", total.overflow);
     vf::R ().cls ("extreme.every-t-exceeds-max", total.alloverflow);
+    vf::R ().cls ("extreme.overflow-regime.judged-against-documented-fallback", total.fb_judged);
+    vf::R ().add ("extreme_overflow_cases_outside_fallback_model_domain(sub-ulp difference of parameters)", total.fb_excluded);
     vf::R ().note_max (std::string ("worst extreme-alphabet point error / (eps*M + denorm_min), ") + tname<T> (), total.worst);
     return ok;
 }
